@@ -158,7 +158,7 @@ func createMethodMatcher(methods []string) (methodMatcher, error) {
 }
 
 func createHostMatcher(hosts []config.HostMatcher) (RouteMatcher, error) {
-	matchers := make(compositeMatcher, len(hosts))
+	tms := make([]typedMatcher, len(hosts))
 
 	for idx, host := range hosts {
 		var (
@@ -183,10 +183,18 @@ func createHostMatcher(hosts []config.HostMatcher) (RouteMatcher, error) {
 				"failed to compile host matching expression at index %d", idx).CausedBy(err)
 		}
 
-		matchers[idx] = &hostMatcher{tm}
+		tms[idx] = tm
 	}
 
-	return matchers, nil
+	// the request host has to satisfy any one of the listed expressions
+	switch len(tms) {
+	case 0:
+		return compositeMatcher{}, nil
+	case 1:
+		return compositeMatcher{&hostMatcher{tms[0]}}, nil
+	default:
+		return compositeMatcher{&hostMatcher{anyOfMatcher(tms)}}, nil
+	}
 }
 
 func createPathParamsMatcher(
